@@ -87,6 +87,23 @@ class ResolvePortRefs(ElabPass):
                 if isinstance(conn, NoConn):
                     module_portrefs.add(_get_connref(inst, portname))
 
+        # Collect the `PortRef`s taken *inside* the Slices and Concats which the Instances of `module` are connected to.
+        # Their connected ports hang on the Slice or Concat, not on the `PortRef`, so `follow` below never meets them.
+        self.nested_portrefs: List[PortRef] = list()
+
+        def mentioned_inside(conn: Connectable) -> None:
+            parts = [conn.parent] if isinstance(conn, Slice) else list(conn.parts) if isinstance(conn, Concat) else []
+            for part in parts:
+                if isinstance(part, PortRef):
+                    if part not in self.nested_portrefs:
+                        self.nested_portrefs.append(part)
+                else:
+                    mentioned_inside(part)
+
+        for inst in instancelike:
+            for conn in inst.conns.values():
+                mentioned_inside(conn)
+
         def follow(pref: PortRef, group: SetList) -> None:
             """Closure to recursively follow `pref`, adding its outward and inward connections to `group`.
             Removes encountered entries from `module_portrefs` along the way."""
@@ -366,9 +383,13 @@ class ResolvePortRefs(ElabPass):
             msg = f"Invalid multiply-connected `NoConn`, including {group} in {module}"
             self.fail(msg)
         # So `group` has two entries: a `NoConn` and a `PortRef`
-        if isinstance(group[0], NoConn):
-            return self.replace_noconn(module, portref=group[1], noconn=group[0])
-        return self.replace_noconn(module, portref=group[0], noconn=group[1])
+        noconn, portref = group if isinstance(group[0], NoConn) else reversed(group)
+        # The no-connected Port must not be referred to inside a Slice or Concat either.
+        # Its `PortRef` would be left unresolved there, and go unnoticed wherever a later Slice drops that part.
+        if portref in self.nested_portrefs:
+            msg = f"Invalid `NoConn` on {portref}, which is also connected inside a Slice or Concat in {module}"
+            self.fail(msg)
+        return self.replace_noconn(module, portref=portref, noconn=noconn)
 
     def replace_noconn(self, module: Module, portref: PortRef, noconn: NoConn):
         """Replace `noconn` with a newly minted `Signal` or `BundleInstance`."""
